@@ -536,6 +536,53 @@ class Check(PropertyCheck):
         elif t < 0.23: nm = b"." + nm
         return nm
 
+    def big_spec(self, n_msg, dtls=0, chunks=None, cuts=None, layer=0, sni=b"example.com"):
+        """a well-formed hello whose handshake message (header included) is exactly n_msg bytes, by a padding extension"""
+        spec = {"kind": "built", "dtls": dtls, "ver_hex": "fefd" if dtls else "0303", "random_hex": "07" * 32, "sid_hex": "-",
+                "ciphers": [0x1301, 0xc02f], "comp_hex": "00",
+                "exts": [{"t": "sni", "names": [[0, hx(sni)]]}, {"t": "alpn", "protos": [hx(b"h2")]}, {"t": "raw", "typ": 21, "data_hex": "-"}],
+                "recvers": [0xfd] if dtls else [1, 3], "chunks": chunks or [], "cuts": cuts or []}
+        if dtls: spec["cookie_hex"] = "-"
+        hdr = 12 if dtls else 4
+        pad = n_msg - (len(build_body(spec)) + hdr)
+        if not 0 <= pad <= 65535: raise ValueError("big_spec: size out of range")
+        spec["exts"][2]["data_hex"] = hx(b"\x00" * pad)
+        if layer: spec["layer"] = 1
+        return spec
+
+    RECORD_EDGES = (16383, 16384, 16385, 32768, 65535)       # 2^14 -1/0/+1 (RFC 8446 §5.1 limit), 2^15, the u16 maximum
+
+    def boundary_cases(self, tier):
+        """hellos whose records sit on the record-size boundaries: one record of exactly N bytes, and splits around it"""
+        for n in (16383, 16384, 16385):
+            yield self.big_spec(n, cuts=[5, 6, n + 4], layer=1)                  # ONE record of n bytes
+            yield self.big_spec(n, chunks=[8192], cuts=[5])                     # two halves
+            yield self.big_spec(n, chunks=[16383], cuts=[16388])                # 16383 + rest
+            yield self.big_spec(n + 1, chunks=[1], cuts=[5, 6, 11])             # 1 + one record of n bytes
+            yield self.big_spec(n + 100, chunks=[n], cuts=[n + 5])              # a record of n bytes, then the rest
+            yield self.big_spec(n, dtls=1, cuts=[13], layer=1)                  # DTLS: one record of n bytes
+        yield self.big_spec(65535, cuts=[5])                                    # the largest record the length field can say
+        yield self.big_spec(65536, chunks=[65535], cuts=[65540], layer=1)       # message length 2^16: 65535 + 1
+        yield self.big_spec(65536, chunks=[32768])
+        yield self.big_spec(65600, chunks=[64, 65535])
+        yield self.big_spec(65535, dtls=1)
+        if tier == "thorough":
+            for n in (16382, 16386, 32767, 32769, 65534):
+                yield self.big_spec(n); yield self.big_spec(n + 7, chunks=[7]); yield self.big_spec(n, dtls=1)
+
+    def gen_big(self, rng):
+        dtls = 1 if rng.chance(0.2) else 0
+        e = min(65535, rng.pick(self.RECORD_EDGES) + rng.pick([-1, 0, 0, 0, 1]))
+        k = rng.random()
+        if dtls or k < 0.35: return self.big_spec(e, dtls=dtls, cuts=[rng.randint(1, 20)])
+        if k < 0.6:
+            lead = rng.randint(1, 300)
+            return self.big_spec(e + lead, chunks=[lead], cuts=[lead + 5, lead + 10])
+        if k < 0.8:
+            return self.big_spec(e + rng.randint(1, 300), chunks=[e], cuts=[rng.randint(1, e)])
+        return self.big_spec(e + rng.randint(0, 2000) if e < 60000 else 66000, chunks=[rng.pick(self.RECORD_EDGES[:3]) + rng.pick([-1, 0, 1]) for _ in range(3)],
+                             cuts=sorted(rng.sample(range(1, 16000), 3)))
+
     def gen_spec(self, rng, small=False):
         dtls = 1 if rng.chance(0.3) else 0
         spec = {"kind": "built", "dtls": dtls,
@@ -648,6 +695,7 @@ class Check(PropertyCheck):
                 for i, j in itertools.combinations(range(1, min(n, 40)), 2):
                     c = dict(s); c["chunks"] = [i, j - i]; c["cuts"] = [i + 5, j + 10]
                     yield c
+        yield from self.boundary_cases(tier)
         # starts_like_*_record: every boundary of the transcribed expression, and lengths 0..3
         for dtls in (0, 1):
             for a in (0x15, 0x16, 0x17):
@@ -666,7 +714,9 @@ class Check(PropertyCheck):
         recent = []
         while True:
             r = rng.random()
-            if rng.chance(0.12):
+            if rng.chance(0.008):
+                yield self.gen_big(rng)
+            elif rng.chance(0.12):
                 yield {"kind": "host", "name_hex": hx(self.gen_host(rng))}
             elif rng.chance(0.02):
                 yield {"kind": "starts", "dtls": rng.randint(0, 1), "data_hex": hx(rng.bytes_(rng.pick([2, 3, 3, 5, 13])))}
@@ -837,11 +887,13 @@ class Check(PropertyCheck):
         obs["inc"] = inc
         obs["pre"] = [run_parse(dtls, wire[:i]) for i in self.tie_prefixes(case, wire)]
         if case.get("allcuts"):
-            bad, final = [], obs["whole"][0]
+            bad, final, first_done = [], obs["whole"][0], None
             for i in range(len(wire) + 1):
                 r = run_parse(dtls, wire[:i])
+                if r["o"] != "incomplete" and first_done is None: first_done = i
                 if r["o"] != "incomplete" and r != final: bad.append([i, r])
             obs["prefix_bad"] = bad[:3]
+            obs["first_done"] = first_done
         if case.get("layer"):
             obs["layer"] = drive_layer(dtls, segs)
         if truth is not None and self.n_frags(case) >= 2:
@@ -884,7 +936,7 @@ class Check(PropertyCheck):
             # fragmented DTLS flights, whose reading is finding F-C13a.)
             if self.n_frags(case) < 2:
                 end = hello_end_offset(wires[0], bool(case["dtls"]))
-                pts = list(zip(self.tie_prefixes(case, wires[0]), obs["pre"])) + [(i, r) for i, r in obs.get("prefix_all_bad", [])]
+                pts = list(zip(self.tie_prefixes(case, wires[0]), obs["pre"]))
                 for i, r in pts:
                     if i < end:
                         if r.get("o") != "incomplete":
@@ -892,6 +944,8 @@ class Check(PropertyCheck):
                     else:
                         tf = truth_fails(truth, r)
                         if tf: fails.append(f"truth(prefix {i}>={end}): " + "; ".join(tf)); break
+                if "first_done" in obs and obs["first_done"] != end:
+                    fails.append(f"truth(prefixes): the first prefix with a verdict has length {obs['first_done']}, the hello's last record ends at {end}")
         # "Splitting a valid ClientHello across any number of TLS records and TCP segments changes none of these results"
         if obs["inc"] != obs["whole"][0]:
             fails.append(f"segmentation: fed in segments {case.get('cuts')} gives {str(obs['inc'])[:150]}, in one piece {str(obs['whole'][0])[:150]}")
